@@ -98,8 +98,9 @@ func TestVerifC13Chain(t *testing.T) {
 		o := optsFor(sc, seed)
 		o.NIdent = 8 + sc%3*4
 		w := NewWorld(o)
-		if err := w.Prologue(); err != nil {
-			t.Fatal(err)
+		if !startScenario(w, rep, false) {
+			w.Cleanup()
+			continue
 		}
 		R := w.Replicas[1]
 		s := NewScenario(w, verifutil.NewRng(seed, 13))
